@@ -210,6 +210,13 @@ func YAMLUnmarshalerWithValidator(validator protoyaml.Validator) YAMLUnmarshaler
 	}
 }
 
+// YAMLUnmarshalerWithDiscardUnknown says to ignore unrecognized fields and extensions.
+func YAMLUnmarshalerWithDiscardUnknown() YAMLUnmarshalerOption {
+	return func(yamlUnmarshaler *yamlUnmarshaler) {
+		yamlUnmarshaler.discardUnknown = true
+	}
+}
+
 // NewYAMLUnmarshaler returns a new Unmarshaler for yaml.
 //
 // If the resolver is nil, EmptyResolver will be used.
